@@ -153,8 +153,9 @@ Theorem C13_sde_trajectory_given_dt :
 Proof. intros. unfold sd_one. now apply s_run_one_given_dt. Qed.
 Print Assumptions C13_sde_trajectory_given_dt.
 
-(* the code as it is: after any history made of run() calls only, a
-   trajectory is the one a fresh solver computes *)
+(* whether or not the option is put back by run_from_experiment: after any
+   history made of run() calls only, a trajectory is the one a fresh solver
+   computes (this was all that held before /repo commit 106cd48) *)
 Theorem C13_sde_after_runs_only :
   forall V Y (P : sdp V Y) stream (s : sint V Y) evs seed t0 y0 ts,
     forallb (is_run V Y) evs = true ->
@@ -166,12 +167,15 @@ Proof.
 Qed.
 Print Assumptions C13_sde_after_runs_only.
 
-(* the code as it is violates the property once run_from_experiment is part
-   of the history: the full statement
+(* restore = false is run_from_experiment as it was before /repo commit
+   106cd48 ("dt" put back in the `except` branch only).  That code violates
+   the property: the full statement
      forall evs, fst (sd_one P stream (sd_after P stream false s evs) seed ..) =
                  fst (sd_one P stream s seed ..)
    is false.  Witness: dt = 1, one experiment on tlist 0,2,4; then seed 7 on
-   tlist 0,2,4 draws 2 noise values instead of 4. *)
+   tlist 0,2,4 draws 2 noise values instead of 4.  Kept so that the check
+   names the defect if the correspondence K3 ever matches restore = false
+   again. *)
 Theorem C13_sde_after_experiment_refuted :
   exists (P : sdp Z (list (list Z))) stream s evs seed t0 y0 ts,
     fst (sd_one P stream (sd_after P stream false s evs) seed t0 y0 ts) <>
@@ -185,8 +189,8 @@ Proof.
 Qed.
 Print Assumptions C13_sde_after_experiment_refuted.
 
-(* with the option put back after run_from_experiment (the proposed repair)
-   the statement holds for every history *)
+(* restore = true is the code under test (try/finally): the statement holds
+   for every history of run() and run_from_experiment() calls *)
 Theorem C13_sde_any_history_when_dt_restored :
   forall V Y (P : sdp V Y) stream (s : sint V Y) evs seed t0 y0 ts,
     fst (sd_one P stream (sd_after P stream true s evs) seed t0 y0 ts) =
@@ -380,7 +384,7 @@ Definition ex_prob : mcprob :=
                   {| c_w := [0; 3; 1]; c_tgt := [None; Some 1%nat; Some 2%nat]; c_amp := [0; 1; 0] |} ] |}.
 Example C13_nonvacuous_mc :
   i_observe ex_prob
-    [ [2^119; 0; 0]; [2^117; 2^118; 2^119 + 1; 2^119; 1] ]
+    [ [2^1199; 0; 0]; [2^1197; 2^1198; 2^1199 + 1; 2^1199; 1] ]
     [ (0, 1%nat, [8; 16], false); (0, 2%nat, [8; 16; 24], false) ] =
   [ (Some [(8, 0%nat, 0); (16, 0%nat, 0)], [(4, 0%nat)], [(0, 0%nat); (1, 1%nat); (0, 2%nat)]);
     (Some [(8, 1%nat, 0); (16, 1%nat, 0); (24, 1%nat, 0)], [(4, 0%nat); (8, 1%nat)],
